@@ -69,6 +69,9 @@ def gen_mixed(rng, n, avoid_f14=False, avoid_f15=False, avoid_f16=False):
             # the apply of a committed Raft removal of a persistent record (sent on deregistration of a persistent
             # instance and when a persistent instance is re-registered as ephemeral)
             ops.append("raftrm svc=%s ip=%s port=%d now=%d" % (svc, addr[0], addr[1], now))
+        elif r < 0.62:
+            # the TCP probe of a persistent instance's host reports its result
+            ops.append("probe svc=%s ip=%s port=%d ok=%d now=%d" % (svc, addr[0], addr[1], rng.randrange(2), now))
         elif r < 0.67:
             ops.append("%s %s now=%d" % (rng.choice(["rmclient", "rmclientc"]), rng.choice(CLIENTS + REMOTE), now))
         elif r < 0.75:
@@ -126,6 +129,10 @@ def gen_timeline(rng, n_inst=3):
                     tag, eph = "none", (1 if rng.random() < 0.85 else 0)
                 ops.append("upd svc=%s ip=%s port=%d eph=%d grpc=0 fc=0 cid=- healthy=1 en=1 w=1000 tag=%s sync=0 now=%d" % (
                     svc, a[0], a[1], eph, tag, now - rng.choice([0, 1, 500])))
+        # the host probe of persistent instances (every 60 s in production) reports now and then, failing or not
+        for a, k in zip(insts, kinds):
+            if k == "persistent" and rng.random() < 0.3:
+                ops.append("probe svc=%s ip=%s port=%d ok=%d now=%d" % (svc, a[0], a[1], 0 if rng.random() < 0.6 else 1, now))
         ops.append("timecheck now=%d" % now)
         if rng.random() < 0.5:
             ops.append("timecheck now=%d" % (now + 2000))
